@@ -576,7 +576,7 @@ type rawClause struct {
 
 func ParseContractText(data, path, pkg string) (*ContractFile, error) {
 	cf := &ContractFile{Path: path, Pkg: pkg, Funcs: map[string]*FuncContract{}, Types: map[string]*TypeDecl{}}
-	keywords := map[string]bool{"spec": true, "func": true, "lemma": true, "type": true, "property": true, "mode": true,
+	keywords := map[string]bool{"section": true, "spec": true, "func": true, "lemma": true, "type": true, "property": true, "mode": true,
 		"requires": true, "ensures": true, "modifies": true, "loop": true, "inline": true, "allow": true, "assumed": true,
 		"ghost": true, "invariant": true, "opt": true, "uses": true, "axiom": true, "thorough": true, "pure": true, "trusted": true,
 		"backends": true, "timeout": true, "decl": true, "opaque": true, "inline-loop": true, "at-call": true, "impl": true}
@@ -708,6 +708,10 @@ func ParseContractText(data, path, pkg string) (*ContractFile, error) {
 			curT = &TypeDecl{Name: strings.TrimSpace(rc.text)}
 			cf.Types[curT.Name] = curT
 			curF, curL = nil, nil
+		case "section":
+			// "section C07 C14": the properties of every following func / lemma (until the next section)
+			fileProps = strings.Fields(strings.ReplaceAll(rc.text, ",", " "))
+			curF, curL, curT = nil, nil, nil
 		case "property":
 			ps := strings.Fields(strings.ReplaceAll(rc.text, ",", " "))
 			switch {
